@@ -5,6 +5,7 @@ state machine (`fixedRows`, with the one-character push-back) and the executable
 (`fixedSpec`, proved equivalent to the inductive language `Parses`).
 """
 import io
+import zlib
 import itertools
 import multiprocessing
 
@@ -21,6 +22,24 @@ def impl_fixed(text, widths, ld):
     fields = [("f%d" % i, w) for i, w in enumerate(widths)]
     try:
         rows = list(rowio.fixed_rows(io.StringIO(text, newline=""), "utf-8", fields, LDS[ld]))
+    except errors.DataFormatError:
+        return "error"
+    except Exception as error:  # noqa
+        return "!" + core.classify_exception(error)
+    if not rows:
+        return "ok ~"
+    return "ok " + ";".join(",".join(enc(c) for c in r) for r in rows)
+
+
+def impl_reader(text, widths, ld):
+    """the same stream through the validating reader: a fixed-width CID of Text fields with these widths and this setting"""
+    from cutplace import errors, interface, validio
+
+    cid = interface.Cid()
+    cid.read("c13", [["D", "Format", "Fixed"], ["D", "Line delimiter", {"any": "Any", "lf": "LF", "cr": "CR", "crlf": "CRLF", "none": "None"}[ld]],
+                     ["D", "Allowed characters", "0..."]] + [["F", "f%d" % i, "", "X", str(w), "Text", ""] for i, w in enumerate(widths)])
+    try:
+        rows = list(validio.Reader(cid, io.StringIO(text, newline="")).rows())
     except errors.DataFormatError:
         return "error"
     except Exception as error:  # noqa
@@ -115,6 +134,13 @@ def run(ctx):
             ctx.machinery_error("model != spec (refuted theorem C13_model_eq_spec?): %r" % case)
         if io_ != s:
             ctx.violation(classify(ld, io_, s, text), "fixed_rows(%r, widths=%r, %s): implementation %s, grammar %s" % (text, list(ws), ld, io_, s), case)
+        elif zlib.crc32(repr((text, ws, ld)).encode("utf-8")) % (97 if ctx.tier == "quick" else 29) == 0:
+            # a sample of the cases also through cutplace's validating reader, which hands the CID's settings to fixed_rows
+            ir = impl_reader(text, ws, ld)
+            ctx.count(key=("reader", text, ws, ld), nontrivial=text != "", branch="reader:%s" % ld)
+            if ir != s:
+                ctx.violation("C13:reader:" + classify(ld, ir, s, text).split(":", 1)[1], "Reader over %r (widths %r, %s): %s, grammar %s" % (text, list(ws), ld, ir, s),
+                              dict(case, reader=ir))
 
 
 def replay(ctx, case):
